@@ -149,20 +149,20 @@ func specFor(cfg caseCfg) porcupine.Model {
 // ---- recording ----
 
 type hop struct {
-	Peer    int   `json:"peer"`
-	Kind    int   `json:"kind"`
-	Conn    int   `json:"conn,omitempty"`
-	Tag     int   `json:"tag,omitempty"`
-	V       int   `json:"v,omitempty"`
-	Seen    int   `json:"seen,omitempty"`
-	Out     *pout `json:"-"`
+	Peer    int    `json:"peer"`
+	Kind    int    `json:"kind"`
+	Conn    int    `json:"conn,omitempty"`
+	Tag     int    `json:"tag,omitempty"`
+	V       int    `json:"v,omitempty"`
+	Seen    int    `json:"seen,omitempty"`
+	Out     *pout  `json:"-"`
 	OutS    string `json:"out,omitempty"`
-	Call    int64 `json:"call"`
-	Ret     int64 `json:"ret"`
-	W       int   `json:"w"` // worker index, -1 main, -2 manager-internal (decayer), -3 echo from a trim
-	ClockB  int64 `json:"clock_b,omitempty"`
-	ClockA  int64 `json:"clock_a,omitempty"`
-	TrimIdx int   `json:"trim_idx"` // echo Disconnected: the trim that closed the conn (-1 otherwise)
+	Call    int64  `json:"call"`
+	Ret     int64  `json:"ret"`
+	W       int    `json:"w"` // worker index, -1 main, -2 manager-internal (decayer), -3 echo from a trim
+	ClockB  int64  `json:"clock_b,omitempty"`
+	ClockA  int64  `json:"clock_a,omitempty"`
+	TrimIdx int    `json:"trim_idx"` // echo Disconnected: the trim that closed the conn (-1 otherwise)
 }
 
 type trimOp struct {
@@ -201,10 +201,11 @@ type wlog struct {
 }
 
 type concCase struct {
-	Cfg     caseCfg  `json:"config"`
-	Setup   []op     `json:"setup"`
-	Rounds  [][][]op `json:"rounds"`  // round -> worker -> ops
-	Between [][]op   `json:"between"` // ops of the main goroutine after each round
+	StatYield int      `json:"stat_yield,omitempty"` // runtime.Gosched() calls inside every Stat() the manager makes
+	Cfg       caseCfg  `json:"config"`
+	Setup     []op     `json:"setup"`
+	Rounds    [][][]op `json:"rounds"`  // round -> worker -> ops
+	Between   [][]op   `json:"between"` // ops of the main goroutine after each round
 }
 
 type concResult struct {
@@ -324,6 +325,10 @@ func (x *concRun) exec(w *wlog, o op, inRound bool) {
 		if fc := g.slots[o.P][o.S]; fc != nil {
 			fc.streams.Store(int32(o.Streams))
 		}
+	case "yield":
+		for i := 0; i < o.V; i++ {
+			runtime.Gosched()
+		}
 	case "tag", "untag", "upsert":
 		h := hop{Peer: o.P, Tag: tagIndex(plainTags, o.Tag), V: o.V, W: w.w, TrimIdx: -1}
 		h.Call = rec.tick()
@@ -385,12 +390,17 @@ func (x *concRun) exec(w *wlog, o op, inRound bool) {
 		}
 		t.Ret = rec.tick()
 		w.trims = append(w.trims, t)
-	case "step":
+	case "step", "tick":
 		// stop at every tick instant of the manager's tickers (see seqRun.step); each sub-step is one
 		// potential periodic trim. Only one goroutine steps the clock at a time.
 		cfg := g.cfg
 		now := g.nowMs()
 		target := now + o.Ms
+		if o.K == "tick" {
+			// straight to the manager's next periodic-trim tick: the trim then runs on the manager's own
+			// goroutine while the other goroutines of the round are still operating
+			target = (now/cfg.SilenceMs + 1) * cfg.SilenceMs
+		}
 		for now < target {
 			next := target
 			for _, per := range []int64{cfg.SilenceMs, cfg.ResMs} {
@@ -438,8 +448,10 @@ func (x *concRun) decayHook(v coreconnmgr.DecayingValue) {
 
 // quiesce: exact quiescent point. Reads the whole observable state (the reads are part of the
 // per-peer histories) and checks the global count against the per-peer conn sets.
-func (x *concRun) quiesce() {
-	synctest.Wait()
+func (x *concRun) quiesce(wait bool) {
+	if wait {
+		synctest.Wait()
+	}
 	g := x.g
 	var s snap
 	s.Count = g.cm.GetInfo().ConnCount
@@ -492,26 +504,29 @@ func (x *concRun) applyProt(ops []op) {
 	}
 }
 
-func runConc(cc concCase) *concResult {
+// runConc executes one concurrent case inside a synctest bubble; the recorded run is analysed by
+// (*concRun).analyse OUTSIDE the bubble (porcupine's timeout must be real time).
+func runConc(cc concCase) *concRun {
 	res := &concResult{counts: map[string]int{}}
 	x := &concRun{cc: cc, res: res, main: &wlog{w: -1, gid: goid()}, bumpCall: map[int]hop{}, connByAd: map[string]*fakeConn{}, gids: map[int64]int{}}
 	g, err := newRig(cc.Cfg, true, x.bumpHook, x.decayHook)
 	if err != nil {
 		res.inconcl = err.Error()
-		return res
+		return x
 	}
 	x.g = g
+	g.rec.statYield.Store(int32(cc.StatYield))
 	x.gids[x.main.gid] = -1
 	x.logs = append(x.logs, x.main)
 	defer func() {
 		g.cm.Close()
 		synctest.Wait()
 	}()
-	x.quiesce()
+	x.quiesce(true)
 	for _, o := range cc.Setup {
 		x.exec(x.main, o, false)
 		x.applyProt([]op{o})
-		x.quiesce()
+		x.quiesce(asyncOp(o))
 	}
 	for ri, round := range cc.Rounds {
 		var wg sync.WaitGroup
@@ -537,23 +552,28 @@ func runConc(cc concCase) *concResult {
 		for _, ops := range round {
 			x.applyProt(ops) // each (peer, protection tag) has a single owner per round: program order decides
 		}
-		x.quiesce()
+		x.quiesce(true)
 		for _, o := range cc.Between[ri] {
 			x.exec(x.main, o, false)
 			x.applyProt([]op{o})
-			x.quiesce()
+			x.quiesce(asyncOp(o))
 		}
 	}
-	x.analyse()
-	return res
+	return x
 }
+
+// asyncOp: operations whose effect is applied by one of the manager's goroutines.
+func asyncOp(o op) bool { return o.K == "bump" || o.K == "dremove" || o.K == "step" || o.K == "tick" }
 
 // ---- analysis ----
 
 func overlap(aC, aR, bC, bR int64) bool { return aC < bR && bC < aR }
 
-func (x *concRun) analyse() {
+func (x *concRun) analyse() *concResult {
 	res, cfg := x.res, x.cc.Cfg
+	if x.g == nil {
+		return res
+	}
 	var hops []hop
 	var trims []trimOp
 	var prots []protOp
@@ -565,7 +585,7 @@ func (x *concRun) analyse() {
 	hops = append(hops, x.hookHops...)
 	if len(x.bumpCall) > 0 {
 		res.inconcl = fmt.Sprintf("%d queued bump(s) never reached the bump function", len(x.bumpCall))
-		return
+		return res
 	}
 	sort.Slice(trims, func(i, j int) bool { return trims[i].Call < trims[j].Call })
 	for i := range trims {
@@ -688,6 +708,7 @@ func (x *concRun) analyse() {
 		}
 		res.detail["trims"] = trims
 	}
+	return res
 }
 
 func describeHops(hs []hop) []string {
@@ -945,7 +966,11 @@ func (x *concRun) judgeTrims(trims []trimOp, byPeer [nPeers][]hop, prots []protO
 // ---- generation (a function of the PRNG only) ----
 
 func genConc(rng *rand.Rand) concCase {
-	cc := concCase{Cfg: genCfg(rng)}
+	cc := concCase{Cfg: genCfg(rng), StatYield: rng.IntN(4)}
+	// decay rounds are rare in concurrent cases: a clock step that first crosses a decay tick waits (inside
+	// the mock clock) for the whole bubble to go idle before it reaches the periodic-trim tick
+	cc.Cfg.ResMs = 60011
+	cc.Cfg.DecIntMs = [2]int64{cc.Cfg.ResMs, 2 * cc.Cfg.ResMs}
 	if cc.Cfg.Low == 0 && rng.IntN(2) == 0 {
 		cc.Cfg.Low, cc.Cfg.High = 2, 4
 	}
@@ -1040,7 +1065,7 @@ func genConc(rng *rand.Rand) concCase {
 			}
 			if w == stepper {
 				i := rng.IntN(len(round[w]))
-				round[w] = append(round[w][:i], append([]op{{K: "step", Ms: stepsMs[rng.IntN(len(stepsMs))]}}, round[w][i:]...)...)
+				round[w] = append(round[w][:i], append([]op{{K: "tick"}}, round[w][i:]...)...)
 			}
 		}
 		cc.Rounds = append(cc.Rounds, round)
@@ -1058,6 +1083,41 @@ func genConc(rng *rand.Rand) concCase {
 			}
 		}
 		cc.Between = append(cc.Between, bt)
+	}
+	return cc
+}
+
+// genTrimRace: dedicated schedule stress for "two trims overlap while an unconnected peer with a
+// buffered tag record connects". The periodic trim does not take the manager's trim mutex, so a clock
+// tick and TrimOpenConns really run side by side. Long-lived conns refuse to close (mode fail), so the
+// manager stays above its high watermark round after round; grace 0 makes buffered records eligible at once.
+func genTrimRace(rng *rand.Rand) concCase {
+	cc := concCase{StatYield: 1 + rng.IntN(30), Cfg: caseCfg{Low: 1, High: 2, GraceMs: 0, SilenceMs: 10000, ResMs: 10000019, DecIntMs: [2]int64{10000019, 10000019}, DecSub: [2]int{1, 1}, BumpMax: 12}}
+	perm := rng.Perm(nPeers)
+	for _, p := range perm[:3] {
+		cc.Setup = append(cc.Setup, op{K: "conn", P: p, S: 0, Mode: modeFail, Inbound: rng.IntN(2) == 0})
+	}
+	temps := perm[3 : 4+rng.IntN(2)]
+	prep := func() (bt []op) {
+		for _, p := range temps {
+			bt = append(bt, op{K: "disc", P: p, S: 0}, op{K: "tag", P: p, Tag: plainTags[rng.IntN(3)], V: 1 + rng.IntN(5)})
+		}
+		return
+	}
+	cc.Setup = append(cc.Setup, prep()...)
+	for ri, n := 0, 8+rng.IntN(6); ri < n; ri++ {
+		round := [][]op{{{K: "tick"}}, {{K: "trim"}}, nil}
+		for _, p := range temps {
+			round[2] = append(round[2], op{K: "yield", V: rng.IntN(3 * cc.StatYield)}, op{K: "conn", P: p, S: 0, Mode: rng.IntN(2)})
+		}
+		if rng.IntN(2) == 0 {
+			round = append(round, []op{{K: "trim"}})
+		}
+		if rng.IntN(3) == 0 {
+			round[1] = append([]op{{K: "get", P: temps[0]}}, round[1]...)
+		}
+		cc.Rounds = append(cc.Rounds, round)
+		cc.Between = append(cc.Between, prep())
 	}
 	return cc
 }
